@@ -1,4 +1,47 @@
-import OdxVerif.Common.Sexp
-/-! driver stub for the codec family (to be written) -/
-open OdxVerif
-def main : IO Unit := driverMain fun _ => "(not-implemented)"
+import OdxVerif.Model.CodecSexp
+/-! line-protocol driver for the codec family (C01–C05, C08, C17); grammar in harness/odxgen/SEXP.md -/
+open OdxVerif OdxVerif.Codec OdxVerif.Sexp
+
+def errReply (e : Err) : String :=
+  if e = .unmodelled then "(unsupported)" else s!"(err {e.name})"
+
+def handleEmplace (fs : List Sexp) : Option String := do
+  let bt ← reqField fs "bt" (atomP parseBaseType)
+  let enc ← optField fs "enc" (atomP parseEnc)
+  let bl ← reqField fs "bitlen" Sexp.asNat?
+  let bp ← reqField fs "bitpos" Sexp.asNat?
+  let hl ← reqField fs "hl" parseBool
+  let mask ← optField fs "mask" (atomP bytesOfHex?)
+  let pos ← reqField fs "pos" Sexp.asNat?
+  let v ← reqField fs "v" parseIVal
+  let strict ← reqField fs "strict" parseBool
+  let pre ← field? fs "pre"
+  let (m, u) ← (match pre with
+    | [.atom a, .atom b] => do pure ((← bytesOfHex? a), (← bytesOfHex? b))
+    | _ => none)
+  let st : EncState := { msg := m, used := u, cursorByte := pos, cursorBit := bp }
+  match emplaceAtomic v bl bt enc hl mask st strict with
+  | .ok (_, s) => pure s!"(ok {hexAtom s.msg} {hexAtom s.used} (warn {if s.warn > 0 then "t" else "f"}) (cursor {s.cursorByte}))"
+  | .error (e, _) => pure (errReply e)
+
+def handleExtract (fs : List Sexp) : Option String := do
+  let bt ← reqField fs "bt" (atomP parseBaseType)
+  let enc ← optField fs "enc" (atomP parseEnc)
+  let bl ← reqField fs "bitlen" Sexp.asNat?
+  let bp ← reqField fs "bitpos" Sexp.asNat?
+  let hl ← reqField fs "hl" parseBool
+  let pos ← reqField fs "pos" Sexp.asNat?
+  let m ← reqField fs "msg" (atomP bytesOfHex?)
+  let strict ← reqField fs "strict" parseBool
+  let st : DecState := { msg := m, cursorByte := pos, cursorBit := bp }
+  match extractAtomic bl bt enc hl st strict with
+  | .ok (v, s) => pure s!"(ok {printIVal v} (cursor {s.cursorByte}))"
+  | .error (e, _) => pure (errReply e)
+
+def handle (sx : Sexp) : String :=
+  match sx with
+  | .list (.atom "emplace" :: fs) => (handleEmplace fs).getD "(bad-args)"
+  | .list (.atom "extract" :: fs) => (handleExtract fs).getD "(bad-args)"
+  | _ => "(unsupported)"
+
+def main : IO Unit := driverMain handle
